@@ -214,6 +214,9 @@ void cmb_objectqueue_report_print(struct cmb_objectqueue *oqp, FILE *fp) {
 
 int64_t cmb_objectqueue_get(struct cmb_objectqueue *oqp, void **objectloc)
 {
+    /* Waiting since now, also if it takes several rounds at the guard */
+    const double waiting_since = cmb_time();
+
     cmb_assert_release(oqp != NULL);
     cmb_assert_release(objectloc != NULL);
 
@@ -253,9 +256,10 @@ int64_t cmb_objectqueue_get(struct cmb_objectqueue *oqp, void **objectloc)
         /* Wait at the front door until some more becomes available  */
         cmb_assert_debug(oqp->length == 0u);
         cmb_logger_info(stdout, "Waiting for an object");
-        const int64_t sig = cmb_resourceguard_wait(&(oqp->front_guard),
-                                                   has_content,
-                                                   NULL);
+        const int64_t sig = cmi_resourceguard_wait_since(&(oqp->front_guard),
+                                                         has_content,
+                                                         NULL,
+                                                         waiting_since);
         if (sig == CMB_PROCESS_SUCCESS) {
             cmb_logger_info(stdout,"Trying again");
         }
@@ -273,6 +277,9 @@ int64_t cmb_objectqueue_get(struct cmb_objectqueue *oqp, void **objectloc)
 
 int64_t cmb_objectqueue_put(struct cmb_objectqueue *oqp, void *object)
 {
+    /* Waiting since now, also if it takes several rounds at the guard */
+    const double waiting_since = cmb_time();
+
     cmb_assert_release(oqp != NULL);
 
     const struct cmi_resourcebase *rbp = (struct cmi_resourcebase *)oqp;
@@ -308,9 +315,10 @@ int64_t cmb_objectqueue_put(struct cmb_objectqueue *oqp, void *object)
         /* Wait at the back door until some more becomes available  */
         cmb_assert_debug(oqp->length == oqp->capacity);
         cmb_logger_info(stdout, "Waiting for space");
-        const int64_t sig = cmb_resourceguard_wait(&(oqp->rear_guard),
-                                                   has_space,
-                                                   NULL);
+        const int64_t sig = cmi_resourceguard_wait_since(&(oqp->rear_guard),
+                                                         has_space,
+                                                         NULL,
+                                                         waiting_since);
         if (sig == CMB_PROCESS_SUCCESS) {
             cmb_logger_info(stdout,"Trying again");
         }
